@@ -31,9 +31,11 @@ func (P) ID() string { return "C01" }
 func timeUnix(t int64) time.Time { return time.Unix(t, 0) }
 
 // fixedClock is the node's (adjusted) time: a constant, so that the "too far in the future" rule is decidable.
-type fixedClock struct{ t int64 }
+type fixedClock struct{ t *int64 }
 
-func (f fixedClock) AdjustedTime() time.Time         { return time.Unix(f.t, 0) }
+func newClock(t int64) fixedClock { return fixedClock{&t} }
+
+func (f fixedClock) AdjustedTime() time.Time         { return time.Unix(*f.t, 0) }
 func (f fixedClock) AddTimeSample(string, time.Time) {}
 func (f fixedClock) Offset() time.Duration           { return 0 }
 
@@ -46,6 +48,7 @@ type delivery struct {
 }
 
 type scenario struct {
+	nowAdd   int            // clock context: seconds the clock is advanced before the second delivery
 	sideCoin *wire.OutPoint // an output created on the candidate's own side branch (reorg contexts)
 	op       string         // blk | api
 	parent   *path          // the candidate's parent path (harness's own fold)
@@ -92,6 +95,9 @@ func buildScenario(r recipe) *scenario {
 	if m == nil {
 		return nil
 	}
+	if r.ctx == "reorgW" && r.mut == "timenew" && v.bip94 {
+		return nil // the block above the candidate would be a period's first block far behind its parent's claimed time
+	}
 	bs := buildBase(v)
 	sc := &scenario{r: r, v: v, bs: bs}
 	for _, b := range bs.blocks {
@@ -107,13 +113,18 @@ func buildScenario(r recipe) *scenario {
 	var after []delivery
 	switch r.ctx {
 	case "tip", "hdr", "restart", "tmpltip":
-		s = scen{n + 1, n, 1, 0, 1}
+		s = scen{n + 1, n, 1, 0, 1, 0}
+	case "clock":
+		// the clock moves: a block that is too far in the future now is delivered again two seconds later
+		// (the first rejection must leave no trace)
+		sc.nowAdd = 2
+		s = scen{n + 1, n, 1, 0, 1, 2}
 	case "nopow":
 		// ProcessBlock with BFNoPoWCheck: everything but the hash-vs-target comparison
-		s = scen{n + 1, n, 1, 1, 1}
+		s = scen{n + 1, n, 1, 1, 1, 0}
 	case "tmpl":
 		// CheckConnectBlockTemplate on the tip: nothing is stored, proof of work is not checked
-		s = scen{n, n, 0, 1, 0}
+		s = scen{n, n, 0, 1, 0, 0}
 	case "side2":
 		// main chain: two more blocks; side chain: a plain block, then the candidate, then a child that wins
 		main := bs.p.clone()
@@ -121,7 +132,21 @@ func buildScenario(r recipe) *scenario {
 		m2 := plainBlock(main, 212, blockSpacing)
 		s1 := plainBlock(parent, 213, blockSpacing+3)
 		sc.dels = append(sc.dels, delivery{blk: m1}, delivery{blk: m2}, delivery{blk: s1})
-		s = scen{n + 3, n + 2, 1, 0, 1}
+		s = scen{n + 3, n + 2, 1, 0, 1, 0}
+	case "reorgW":
+		// as reorgX, but the candidate is the SECOND block of the nine-block attach list: one plain side block
+		// below it, seven plain blocks above it, the last of which triggers the reorganisation
+		main := bs.p.clone()
+		for i := 0; i < 6; i++ {
+			sc.dels = append(sc.dels, delivery{blk: plainBlock(main, uint32(221+i), 3600)})
+		}
+		side := newPath(v)
+		for _, b := range bs.blocks[:n-2] {
+			side.apply(b)
+		}
+		parent = side
+		sc.dels = append(sc.dels, delivery{blk: plainBlock(parent, 240, blockSpacing)})
+		s = scen{n + 7, n + 6, 1, 0, 1, 0}
 	case "reorgX", "reorgY", "reorgZ":
 		// A long reorganisation in which everything context dependent DIFFERS between the competing branch and
 		// the candidate's own ancestors: the fork is two blocks below the base tip (heights, maturities and the
@@ -165,7 +190,7 @@ func buildScenario(r recipe) *scenario {
 			}
 			sc.dels = append(sc.dels, delivery{blk: blk})
 		}
-		s = scen{n + 7, n + 6, 1, 0, 1}
+		s = scen{n + 7, n + 6, 1, 0, 1, 0}
 	case "orphan2":
 		// the candidate itself takes the orphan path: its parent X is a sibling of the tip that arrives later,
 		// so the candidate is then connected by processOrphans through a reorganisation
@@ -176,12 +201,12 @@ func buildScenario(r recipe) *scenario {
 		parent = side
 		x := plainBlock(parent, 400+caseNonce(r), blockSpacing+11)
 		after = append(after, delivery{blk: x, watch: true})
-		s = scen{n + 1, n, 1, 0, 1}
+		s = scen{n + 1, n, 1, 0, 1, 0}
 	case "orphan3":
 		// as orphan2, but the late parent X extends the tip: the candidate is connected by processOrphans directly
 		x := plainBlock(parent, 400+caseNonce(r), blockSpacing+11)
 		after = append(after, delivery{blk: x, watch: true})
-		s = scen{n + 2, n + 1, 1, 0, 1}
+		s = scen{n + 2, n + 1, 1, 0, 1, 0}
 	case "fork":
 		// an unrelated side chain of equal length off block n-2, plus an unrelated orphan, come first
 		side := newPath(v)
@@ -194,15 +219,15 @@ func buildScenario(r recipe) *scenario {
 		f4 := plainBlock(side, 104, blockSpacing)
 		_ = f3
 		sc.dels = append(sc.dels, delivery{blk: f1}, delivery{blk: f2}, delivery{blk: f4})
-		s = scen{n + 1, n, 1, 0, 1}
+		s = scen{n + 1, n, 1, 0, 1, 0}
 	case "side":
 		// the main chain gets one more block first; the candidate is its sibling and wins with a child
 		main := bs.p.clone()
 		m1 := plainBlock(main, 201, blockSpacing+7)
 		sc.dels = append(sc.dels, delivery{blk: m1})
-		s = scen{n + 2, n + 1, 1, 0, 1}
+		s = scen{n + 2, n + 1, 1, 0, 1, 0}
 	case "orphan", "shuffle":
-		s = scen{n + 2, n, 1, 0, 1}
+		s = scen{n + 2, n, 1, 0, 1, 0}
 	default:
 		return nil
 	}
@@ -242,7 +267,16 @@ func buildScenario(r recipe) *scenario {
 	case "hdr":
 		// headers first: the header is offered before the block
 		sc.dels = append(sc.dels, delivery{blk: sc.cand, watch: true, hdr: true}, delivery{blk: sc.cand, watch: true})
-	case "tip", "fork", "tmpl", "orphan2", "orphan3", "nopow", "restart", "tmpltip":
+	case "reorgW":
+		sc.dels = append(sc.dels, delivery{blk: sc.cand, watch: true})
+		q := parent.clone()
+		q.apply(sc.cand)
+		// the blocks above run on their own ordinary clock, whatever time the candidate claims
+		q.times[len(q.times)-1] = parent.times[len(parent.times)-1] + blockSpacing
+		for i := 0; i < 7; i++ {
+			sc.dels = append(sc.dels, delivery{blk: plainBlock(q, uint32(260+i), blockSpacing), watch: true})
+		}
+	case "tip", "fork", "tmpl", "orphan2", "orphan3", "nopow", "restart", "tmpltip", "clock":
 		sc.dels = append(sc.dels, delivery{blk: sc.cand, watch: true})
 	case "reorgX", "reorgZ":
 		sc.dels = append(sc.dels, delivery{blk: sc.cand, watch: true})
@@ -277,7 +311,7 @@ func (sc *scenario) rawBody() string {
 		v.bip34H, v.bip65H, v.bip66H, b2i(v.bip94), v.maturity, v.subsidyIv, p.PowLimit, p.PowLimitBits,
 		b2i(p.ReduceMinDifficulty), int64(p.MinDiffReductionTime/time.Second), int64(v.bpr)*600, 600,
 		p.RetargetAdjustmentFactor, p.MinerConfirmationWindow, p.RuleChangeActivationThreshold, bh)
-	fmt.Fprintf(&sb, " %s %s %s %d", depTok(0, v.csvH), depTok(1, v.segH), depTok(2, v.tapH), v.now())
+	fmt.Fprintf(&sb, " %s %s %s %d", depTok(0, v.csvH), depTok(1, v.segH), depTok(2, v.tapH), v.now()+int64(sc.nowAdd))
 	// the S token is the fifth token of the facts
 	sb.WriteString(" " + strings.Fields(sc.facts)[4] + " ")
 	for ti, t := range sc.cand.Transactions {
@@ -381,6 +415,7 @@ type inst struct {
 	dir       string
 	delivered map[chainhash.Hash]bool
 	tip       chainhash.Hash
+	clock     fixedClock
 }
 
 func (i *inst) close() {
@@ -448,13 +483,14 @@ func newInst(sc *scenario, key string) (*inst, string) {
 		os.RemoveAll(dir)
 		return nil, "err:db"
 	}
-	chain, err := blockchain.New(chainConfig(sc, db, p, sc.r.cache))
+	clock := newClock(sc.v.now())
+	chain, err := blockchain.New(chainConfig(sc, db, p, sc.r.cache, clock))
 	if err != nil {
 		db.Close()
 		os.RemoveAll(dir)
 		return nil, "err:new"
 	}
-	return &inst{key: key, chain: chain, db: db, dir: dir, delivered: map[chainhash.Hash]bool{}}, ""
+	return &inst{key: key, chain: chain, db: db, dir: dir, delivered: map[chainhash.Hash]bool{}, clock: clock}, ""
 }
 
 var instMu sync.Mutex
@@ -493,14 +529,21 @@ func scaffold(sc *scenario, key string) (*inst, string) {
 	return in, ""
 }
 
-func chainConfig(sc *scenario, db database.DB, p *chaincfg.Params, cacheMode int) *blockchain.Config {
+// one signature cache and one sighash cache for ALL chain instances and stand-alone script checks of the run:
+// option objects are created once and reused, sequentially and from concurrent goroutines
+var (
+	sharedSigCache  = txscript.NewSigCache(20000)
+	sharedHashCache = txscript.NewHashCache(20000)
+)
+
+func chainConfig(sc *scenario, db database.DB, p *chaincfg.Params, cacheMode int, clock fixedClock) *blockchain.Config {
 	cache := uint64(0)
 	if cacheMode == 1 {
 		cache = 4 << 20
 	}
 	return &blockchain.Config{
-		DB: db, ChainParams: p, TimeSource: fixedClock{sc.v.now()}, UtxoCacheMaxSize: cache,
-		SigCache: txscript.NewSigCache(1000), HashCache: txscript.NewHashCache(1000),
+		DB: db, ChainParams: p, TimeSource: clock, UtxoCacheMaxSize: cache,
+		SigCache: sharedSigCache, HashCache: sharedHashCache,
 	}
 }
 
@@ -516,7 +559,7 @@ func (in *inst) reopen(sc *scenario) string {
 		return "err:reopen-db"
 	}
 	in.db = db
-	chain, err := blockchain.New(chainConfig(sc, db, p, 1-sc.r.cache))
+	chain, err := blockchain.New(chainConfig(sc, db, p, 1-sc.r.cache, in.clock))
 	if err != nil {
 		return "err:reopen-chain"
 	}
@@ -646,13 +689,22 @@ func (sc *scenario) runOn(in *inst) (string, bool) {
 			_, _, err = chain.ProcessBlock(btcutil.NewBlock(d.blk), blockchain.BFNoPoWCheck)
 		case sc.r.ctx == "tmpltip":
 			// the template check first, twice, then the delivery: all three must agree
-			t1, t2 := chain.CheckConnectBlockTemplate(btcutil.NewBlock(d.blk)), chain.CheckConnectBlockTemplate(btcutil.NewBlock(d.blk))
-			_, _, err = chain.ProcessBlock(btcutil.NewBlock(d.blk), blockchain.BFNone)
+			// ONE block object for all three calls (it caches hashes, bytes and the height)
+			same := btcutil.NewBlock(d.blk)
+			t1, t2 := chain.CheckConnectBlockTemplate(same), chain.CheckConnectBlockTemplate(same)
+			_, _, err = chain.ProcessBlock(same, blockchain.BFNone)
 			c1, _ := ruleClass(t1)
 			c2, _ := ruleClass(t2)
 			c3, _ := ruleClass(err)
 			if (t1 == nil) != (err == nil) || (t2 == nil) != (err == nil) || c1 != c3 || c2 != c3 {
 				value = "template:" + c1 + "/" + c2 + "/" + c3
+			}
+		case sc.r.ctx == "clock":
+			_, _, err = chain.ProcessBlock(btcutil.NewBlock(d.blk), blockchain.BFNone)
+			if c, ok := ruleClass(err); err != nil && ok && c == "time-new" {
+				*in.clock.t += int64(sc.nowAdd)
+				_, _, err = chain.ProcessBlock(btcutil.NewBlock(d.blk), blockchain.BFNone)
+				*in.clock.t -= int64(sc.nowAdd)
 			}
 		default:
 			_, _, err = chain.ProcessBlock(btcutil.NewBlock(d.blk), blockchain.BFNone)
@@ -884,7 +936,7 @@ func generate(R *core.Rand, thorough bool, emit func(class string, nontrivial bo
 			emit("par", true, "C01 par "+strings.Join(bodies, " | "))
 		}
 	}()
-	ctxs := []string{"tip", "side", "orphan", "fork", "side2", "tmpl", "orphan2", "orphan3", "hdr", "shuffle", "nopow", "restart", "tmpltip", "reorgX", "reorgY", "reorgZ"}
+	ctxs := []string{"tip", "side", "orphan", "fork", "side2", "tmpl", "orphan2", "orphan3", "hdr", "shuffle", "nopow", "restart", "tmpltip", "reorgX", "reorgY", "reorgZ", "reorgW", "clock"}
 	for vi, v := range variants {
 		for _, m := range mutators {
 			if !m.applies(v, v.baseLen()+1) {
@@ -918,9 +970,7 @@ func generate(R *core.Rand, thorough bool, emit func(class string, nontrivial bo
 				var picks []recipe
 				if thorough {
 					for _, c := range ctxs {
-						for cache := 0; cache < 2; cache++ {
-							picks = append(picks, recipe{vi, c, cache, m.name, a})
-						}
+						picks = append(picks, recipe{vi, c, R.Intn(2), m.name, a})
 					}
 				} else {
 					// one context, a second different one a third of the time
@@ -934,7 +984,7 @@ func generate(R *core.Rand, thorough bool, emit func(class string, nontrivial bo
 				if m.name == "manytx" && !thorough && vi != 0 && vi != 1 && vi != 5 {
 					continue // 250 transactions per candidate: keep the quick tier quick
 				}
-				if m.name != "combo" && (thorough || m.name == "manytx" || R.Chance(1, 2)) {
+				if m.name != "combo" && m.name != "pos" && (thorough || m.name == "manytx" || R.Chance(1, 3)) {
 					r := recipe{vi, "tip", R.Intn(2), m.name, a}
 					if sc := buildScenario(r); sc != nil {
 						sc.op = "api"
@@ -952,9 +1002,15 @@ func generate(R *core.Rand, thorough bool, emit func(class string, nontrivial bo
 					}
 				}
 				if !thorough && contextSensitive[m.name] && (vi == 0 || vi == 1 || vi == 4 || vi == 5) {
-					// rules whose verdict depends on the block's own ancestors: always through the long reorganisations
-					for _, c := range []string{"reorgX", "reorgY", "reorgZ"} {
-						picks = append(picks, recipe{vi, c, R.Intn(2), m.name, a})
+					// rules whose verdict depends on the block's own ancestors: always through a long reorganisation;
+					// the relations the seeded changes C01-a / C01-b live on, through all four of them
+					reorgs := []string{"reorgX", "reorgY", "reorgZ", "reorgW"}
+					if (m.name == "bip68t" || m.name == "respend" || m.name == "otherbranch") && (vi == 0 || vi == 5) {
+						for _, c := range reorgs {
+							picks = append(picks, recipe{vi, c, R.Intn(2), m.name, a})
+						}
+					} else {
+						picks = append(picks, recipe{vi, reorgs[R.Intn(4)], R.Intn(2), m.name, a})
 					}
 				}
 				for _, r := range picks {
